@@ -155,6 +155,9 @@ def run_case(ctx, case, model=True):
         before = [F.rec_snapshot(r) for r in pool]
         kind = op["op"]
         where = {"case": case, "op_index": opi}
+        if max(op.get("i", 0), op.get("j", 0)) >= len(pool):       # an operand that an earlier, refused operation would have produced
+            ctx.count("op_skipped", "operand-missing")
+            continue
         try:
             if kind == "add":
                 res = pool[op["i"]] + pool[op["j"]]
@@ -167,8 +170,14 @@ def run_case(ctx, case, model=True):
                     fuel_consumer_class=FuelConsumerClassFuelEUMaritime(op["cls"]))
             elif kind == "total":
                 res = pool[op["i"]].total_fuel_consumption
-        except Exception as e:  # mixed IMO/EU records etc. are rejected by the code: accepted
+        except Exception as e:
             ctx.count("op_rejected", f"{kind}:{core.error_class(e)}")
+            # the emission query may refuse a record (a user-specified fuel without factors, a consumer class the table has no row for);
+            # adding, scaling, fractions and totals are defined for every record of the property's domain
+            operands = [pool[x] for x in (op.get("i"), op.get("j")) if x is not None]
+            mixed_shapes = any(len({np.shape(f.mass_or_mass_fraction) for f in r.fuels}) > 1 for r in operands)
+            if kind != "emissions" and not mixed_shapes:       # one record holding scalar and series masses side by side is not a record of the domain
+                ctx.fail("predicate", f"{kind}-raises-{core.error_class(e)}", f"{type(e).__name__}: {e}", where)
             after = [F.rec_snapshot(r) for r in pool]
             check_unchanged(ctx, kind, before, after, where)
             continue
